@@ -5,7 +5,7 @@ cd "$(dirname "$0")"
 mkdir -p gen
 ( cd gen && rm -f *.ml *.mli && coqc -Q ../../coq/theories Nomt ../../coq/extract/Extract.v >/dev/null )
 rm -rf _build && mkdir -p _build
-cp gen/*.ml gen/*.mli state.ml core_cmds.ml img_cmds.ml sync_cmds.ml misc_cmds.ml wal_cmds.ml rb_cmds.ml fl_cmds.ml delta_cmds.ml lb_cmds.ml bb_cmds.ml driver.ml _build/
+cp gen/*.ml gen/*.mli state.ml core_cmds.ml img_cmds.ml sync_cmds.ml misc_cmds.ml wal_cmds.ml rb_cmds.ml fl_cmds.ml delta_cmds.ml lb_cmds.ml bb_cmds.ml rbbook_cmds.ml driver.ml _build/
 cd _build
 ORDER=$(ocamlfind ocamldep -sort *.ml *.mli | tr ' ' '\n' | grep -v '^$' )
 ocamlfind ocamlopt -O3 -w -a -o ../model $ORDER 2>/dev/null || ocamlfind ocamlopt -w -a -o ../model $ORDER
